@@ -1,3 +1,5 @@
+#[cfg(trusttunnel_verif)]
+use crate::verif::tokio;
 use crate::http1_codec::Http1Codec;
 use crate::http_codec::HttpCodec;
 use crate::tls_demultiplexer::Protocol;
